@@ -108,10 +108,29 @@ func traceConc(o opts) error {
 				progs[t] = append(progs[t], op)
 			}
 		}
+		listHeavy := false
+		exactLister := r.Intn(2) == 0
+		// one history in eight is list-heavy: one caller lists again and again (by the exact-name
+		// route) while two others keep writing, each to its own name - a listing must be one
+		// consistent view of both
+		if via == "db" && r.Intn(8) == 0 {
+			exactLister = true
+			listHeavy = true
+			names = []string{"x", "y"}
+			nthreads = 3
+			progs = make([][]dbOp, 3)
+			for k := 0; k < 14; k++ {
+				progs[0] = append(progs[0], dbOp{aok: 1, sok: true, kind: "list", name: "x"})
+			}
+			for t := 1; t <= 2; t++ {
+				for k := 0; k < 6; k++ {
+					progs[t] = append(progs[t], dbOp{aok: 1, sok: true, kind: "put", name: names[t-1], val: []byte(fmt.Sprintf("w%dk%d", t, k))})
+				}
+			}
+		}
 		results := make([][]concCall, nthreads)
 		var wg sync.WaitGroup
 		start := make(chan struct{})
-		exactLister := r.Intn(2) == 0
 		// in a third of the direct histories the state directory disappears for short moments, so
 		// some saves fail while other calls are running
 		faulty := via == "db" && r.Intn(3) == 0
@@ -161,8 +180,30 @@ func traceConc(o opts) error {
 				}
 			}()
 		}
+		// in a list-heavy history a few more goroutines keep the database lock busy (WriteGen only
+		// takes and releases it), so that whoever needs it twice is likely to wait in between
+		stopHammer := make(chan struct{})
+		var hw sync.WaitGroup
+		if listHeavy {
+			for k := 0; k < 6; k++ {
+				hw.Add(1)
+				go func() {
+					defer hw.Done()
+					for {
+						select {
+						case <-stopHammer:
+							return
+						default:
+							d.WriteGen()
+						}
+					}
+				}()
+			}
+		}
 		close(start)
 		wg.Wait()
+		close(stopHammer)
+		hw.Wait()
 		close(stopFaults)
 		<-faultsDone
 		final, err := readDisk(path, kek)
